@@ -122,7 +122,12 @@ def check(case):
         buf[:] = Q[x]
         if IQ is not None:
             ibuf[:] = IQ[x]
-        c = safe_call(m.predict, buf, ibuf) if IQ is not None else safe_call(m.predict, buf)
+        if IQ is None and case.get("I_onthefly"):
+            ibuf[:] = case["I_onthefly"][0]          # every single-sample query carries the SAME identifier, different features
+            c = safe_call(m.predict, buf, ibuf)
+            res.see("onthefly_identifier_queries")
+        else:
+            c = safe_call(m.predict, buf, ibuf) if IQ is not None else safe_call(m.predict, buf)
         if not c.ok:
             res.violate("exception", f"C14/exception/predict/{kind}/{type(c.exc).__name__}", f"predict raised at {c.where}: {str(c.exc)[:200]}")
             return res
